@@ -521,7 +521,20 @@ def r7_inheritance(ctx):
     ctx.floor('C19.R7', 'inheritance cases evaluated', n, 8)
 
 
+def r8_blueprint_file_is_current(ctx):
+    ctx.rule('C19.R8', 'P7/P3: Blueprint::persist hands the serialised blueprint to persist_if_changed::persist_if_changed, which rewrites the file unless '
+             'its SHA-256 comparison says "unchanged"; that comparison hashes everything it reads (`&buffer[..n]` for the n bytes read() returned, in '
+             'the read loop; no read_exact whose short tail is dropped) — otherwise a blueprint that differs from the one on disk only near its '
+             'end is not written and the compiler analyses the previous application.')
+    from .persist_common import whole_content_hashed
+    per = [t for b in ctx.fb.bodies_of_item('pavex', 'pavex::blueprint::blueprint::Blueprint::persist') for _, t in b.calls()
+           if (callee(t) or '').startswith('persist_if_changed::')]
+    ctx.ob('C19.R8', 'persist-goes-through-persist_if_changed', bool(per), '', 'Blueprint::persist calls %s' % sorted({callee(t) for t in per}))
+    whole_content_hashed(ctx, 'C19.R8')
+
+
 def check(ctx):
+    r8_blueprint_file_is_current(ctx)
     r1_schema_symmetry(ctx)
     s2v = r2_conversions(ctx)
     r3_append_only(ctx)
